@@ -73,7 +73,8 @@ STL_CFGS = [None,
             dict(program_start_tc="00:00:00:00", max_row_count=11, disable_line_padding=True),
             dict(program_start_tc="10:00:00:00", font_stack=("Arial", "monospace")),
             dict(program_start_tc="01:00:00;00", max_row_count=99, disable_fill_line_gap=True, disable_line_padding=True),
-            dict(max_row_count=23, font_stack=())]
+            dict(max_row_count=23, font_stack=()),
+            dict(max_row_count=0), dict(max_row_count=-5, program_start_tc="TCP")]
 READER_CFGS = {"imsc": [None], "srt": [None], "vtt": [None], "scc": SCC_CFGS, "stl": STL_CFGS}
 
 SRT_W = [None, dict(text_formatting=True), dict(text_formatting=False)]
@@ -141,10 +142,11 @@ def install_observers():
         def handle_starttag(self, tag, attrs):
             t = tag.lower(); k = "plain"
             if t == "font":
-                k = "font-nocolor"
+                k = "font-nocolor"           # the first color attribute that has a value counts (a valueless one is skipped)
                 for a in attrs:
                     if a[0] == "color":
-                        k = "font-color-none" if a[1] is None else "font-color"; break
+                        if a[1] is None: k = "font-color-none"; continue
+                        k = "font-color"; break
             self._rec["ev"].append(("S", k, tag))
             try:
                 return super().handle_starttag(tag, attrs)
@@ -177,8 +179,8 @@ def install_observers():
             for token in vr.CueTextTokenizer(cue_text):
                 if isinstance(token, StartTagToken):
                     t = token.tag.lower()
-                    rec["ev"].append(("S", "ruby" if t.startswith("ruby") else "rt" if t.startswith("rt") else "span"))
-                elif isinstance(token, EndTagToken): rec["ev"].append(("E", ""))
+                    rec["ev"].append(("S", "ruby" if t.startswith("ruby") else "rt" if t.startswith("rt") else "span", t))
+                elif isinstance(token, EndTagToken): rec["ev"].append(("E", "", token.tag.lower()))
                 elif isinstance(token, StringToken): rec["ev"].append(("D", str(token.value.count("\n"))))
                 elif isinstance(token, TimestampTagToken): rec["ev"].append(("T", ""))
                 else: rec["ev"].append(("?", type(token).__name__))
